@@ -44,6 +44,11 @@ CLAIMS = {
   text="Proved in Lean for every network (any node step functions, any parents relation), every topological order of any sub-graph and every store: after one forward pass each node of the order holds its step function applied to its own previous memory/state and to the NEW states of its parents followed by its external input (C02_forward_fixpoint: each node once, after its predecessors, on their same-step outputs), nodes outside the order and all proxies/clamps are untouched (C02_not_mem), these equations have a unique solution (C02_unique) and any two topological orders of the same nodes give the same result (C02_order_irrelevant); a named external input reaches exactly the named node (C02_named_inputs). The driver instantiates these same generic functions with the concrete node step functions of the reservoir / window / readout models. Tied to the code by random DAGs of 2-7 real nodes (fan-in, fan-out, diamonds, several entries/exits; Model(nodes, edges) or >> / &), call and run with array or name-keyed inputs, 1-3 sequences, every return_states selection: every returned row, the return convention (bare vs keyed) and state() of every node are compared exactly with the model, and with a node-by-node oracle that evaluates deep copies in a harness-computed topological order.",
   note="Trusted: Lean kernel + standard axioms; lean/RpyModel/Dataflow.lean and the node models; the harness. Fan-in column order is mirrored (parents sorted by name) - another fixed order would be reported as a correspondence break. Feedback is excluded here (C05).",
   design="§6 C02"),
+ "C05": dict(
+  technique="Lean 4 proof (invariants of the generic forward pass with frozen proxies and one-shot clamps; induction along the order and over the run loop) + exact differential correspondence of models with feedback",
+  text="Proved in Lean for every network, order and store: the forward pass never changes a proxy (C05_proxy_frozen); for a topological order whose senders are frozen or outside the pass, each node's new state is its step function on the same-step states of its parents and on the feedback value determined by the store at the START of the step, wherever the sender stands (C05_forward_fixpoint); every iteration of the free-running loop ends with all model proxies = current states and no pending clamp (C05_step_synced), so at every step the receiver reads its sender's state of step t-1 - its pre-existing output at the first step, and for a sender outside the graph its unchanged state (C05_fb_prev_step); a pending forced value is what the receiver reads and it is consumed by that read (C05_forced_read, C05_clamp_once); entering with_feedback clamps a receiver with the value keyed by itself or by its sender (C05_enter_forced); the shift yields zero at step 0 then Y[t-1], or Y[t] without shift (C05_forced_shift). Tied to the code by random models with 1-2 receivers, sender downstream / upstream (incl. Input nodes) / outside the graph, plain node or unfitted Ridge, histories of free runs, forced runs (keyed by sender or receiver, shift on/off, several sequences), calls (with a reused, in-place overwritten input buffer), forced calls and resets: every node's output at every step and every state after every operation are compared exactly with the model and with a direct oracle that rebuilds each node from its descriptor and feeds each receiver, via a stub sender, the value the property prescribes.",
+  note="Trusted: Lean kernel + standard axioms; lean/RpyModel/Dataflow.lean; the harness. Not in the model: sub-model senders (finding K1) and list senders (K10); teacher-forced fit/train is exercised by C06's harness.",
+  design="§6 C05"),
 }
 
 NOT_YET = "check not built yet in this revision (planned, see DESIGN.md §11)"
